@@ -126,8 +126,9 @@ PROP = Prop(
                          "every query k (enumerated: every k x 3 failure modes x same/other counts x stale or not, plus generated histories), "
                          "exactly one table fetch of a rebuild failing (404) while all others succeed - every table, serial and parallel rebuild "
                          "(MaxParallelPeerConnections 3: initAllTablesParallel, 40% of the generated histories); "
-                         "after every event GET sites status/last_error and the keys of all 10 object tables (hosts with alias), and the "
-                         "answers a concurrent reader got during the tick (services joined with host_alias), vs C11.Model.step")],
+                         "after every event GET sites status/last_error, the keys of all 10 object tables (hosts with alias) and the status "
+                         "table's program_start / nagios_pid / program_version (the row of the backend process the served set came from), and the "
+                         "answers a concurrent reader got during the tick (services joined with host_alias; GET status), vs C11.Model.step")],
     trusted_base=[
         "Coq 8.16.1 kernel, vm_compute (cases evaluation, the non-vacuity Example, base cases of the refutation witness); no native_compute",
         "axioms: none (Print Assumptions: closed under the global context, captured per run)",
